@@ -59,6 +59,15 @@ def long_shapes(tier, rng):
                   AND(n, nest(AND(CUT, FAIL), k)), AND(n, nest(CUT, k), e)):
             rules = list(LIB[:5]) + list(LIB[-2:]) + [fact("zero")] + helpers + [rule(cplx("a", X), b), fact("a", i(9))]
             out.append((single_query_case(rules, [atom("a"), var(0, "$Q")], 5), "long-body"))
+    # a predicate of 300 clauses in which clause 257 / 299 commits
+    for cutat in (255, 256, 257, 299):
+        rules = [fact("num", i(1)), fact("num", i(2))]
+        for k in range(1, 301):
+            if k == cutat: rules.append(rule(cplx("sel", i(0), X), AND(C("num", X), CUT)))
+            else: rules.append(fact("sel", i(k), i(k)))
+        rules.append(fact("sel", i(0), i(99)))
+        out.append((single_query_case(rules, [atom("sel"), i(0), var(0, "$Q")], 4), "long-body"))
+        out.append((single_query_case(rules, [atom("sel"), var(0, "$K"), i(2)], 5), "long-body"))
     # many commits: c/2 cuts and then fails, once per candidate pair
     for m in ([12, 36] if tier == "quick" else [12, 36, 50]):
         rules = [fact("num", i(k)) for k in range(1, m + 1)]
